@@ -153,20 +153,25 @@ fn random_msg(rng: &mut Rng, sjis: bool) -> String {
     s
 }
 
-fn record(out_path: &str, runs: usize, len: usize) {
+/// `runs` histories of `len` calls; every fifth one is six times as long, never re-parses and mostly sets (counters of
+/// calls kept inside one archive object are driven past 2^8); `very_long` > 0 appends one history of that many calls
+/// of the same kind (past 2^16).
+fn record(out_path: &str, runs: usize, len: usize, very_long: usize) {
     let mut rng = Rng::new(seed_from_env());
     let mut out = NdWriter::create(out_path);
     let keys = ["k1", "k2", "k3", "k4", "k5", "k6", "k7", "k8"];
     let fmts = ["unicode-le", "unicode-be", "sjis-le", "sjis-be"];
-    for run in 0..runs {
+    for run in 0..runs + (very_long > 0) as usize {
         let fmt = fmts[run % 4];
         let (f, e) = fmt_of(fmt);
         let mut a = TextArchive::new(f, e);
         out.put(&json!({"op": "reset", "fmt": fmt, "k": "", "m": [], "t": "", "res": unit(), "post": project(&a)}));
         let nkeys = rng.range(2, keys.len());
-        for _ in 0..len {
+        let long = run % 5 == 4 || run == runs;
+        let n_calls = if run == runs { very_long } else if long { 6 * len } else { len };
+        for _ in 0..n_calls {
             let k = keys[rng.below(nkeys)];
-            let r = rng.below(100);
+            let r = if !long { rng.below(100) } else if rng.chance(2, 3) { rng.below(40) } else { rng.below(92) };
             let ev = if r < 40 {
                 json!({"op": "set", "k": k, "m": str_to_codes(&random_msg(&mut rng, fmt.starts_with("sjis"))), "t": ""})
             } else if r < 60 {
@@ -249,6 +254,44 @@ fn text_value(a: &TextArchive, fmt: &str) -> Value {
     json!({"title": sj(a.get_title()), "entries": entries})
 }
 
+/// Build the archive holding `title` / `entries` along one of several histories of public calls (the round trip is a
+/// property of the archive's VALUE, whatever calls produced it):
+///   route 0: new, set_title, set_message per entry
+///   route 1: a decoy (other title, one extra trailing key) is serialized and parsed with from_bytes, then only
+///            set_title / delete_message edit it - no set_message, the parsed archive never becomes dirty
+///   route 2: like 1 through BinArchive::from_bytes + from_archive, and the last entry is set again
+fn build_text(route: usize, f: TextArchiveFormat, e: Endian, title: &str, entries: &[(String, String)]) -> Result<TextArchive, (String, String)> {
+    let mut a = TextArchive::new(f, e);
+    if route == 0 {
+        a.set_title(title.to_string());
+        for (k, m) in entries {
+            a.set_message(k, m);
+        }
+        return Ok(a);
+    }
+    let extra = "\u{1}decoy";
+    a.set_title(format!("{}x", title));
+    for (k, m) in entries {
+        a.set_message(k, m);
+    }
+    a.set_message(extra, "decoy message");
+    let bytes = a.serialize().map_err(|x| ("serialize".to_string(), format!("decoy: {}", x)))?;
+    let mut b = if route == 1 {
+        TextArchive::from_bytes(&bytes, f, e).map_err(|x| ("parse".to_string(), format!("decoy: {}", x)))?
+    } else {
+        let bin = mila::BinArchive::from_bytes(&bytes, e).map_err(|x| ("parse".to_string(), format!("decoy: {}", x)))?;
+        TextArchive::from_archive(&bin, f, e).map_err(|x| ("parse-from_archive".to_string(), format!("decoy: {}", x)))?
+    };
+    b.set_title(title.to_string());
+    b.delete_message(extra);
+    if route == 2 {
+        if let Some((k, m)) = entries.last() {
+            b.set_message(k, m);
+        }
+    }
+    Ok(b)
+}
+
 fn format_replay(cases_path: &str, out_path: &str) {
     let cases = read_ndjson(cases_path);
     let mut out = NdWriter::create(out_path);
@@ -264,15 +307,16 @@ fn format_replay(cases_path: &str, out_path: &str) {
         let expected = json!({"title": expect_title, "entries": c["entries"]});
         let image = json_to_bytes(&c["image"]);
         let r = catch(|| -> Result<(), (String, String)> {
-            let mut a = TextArchive::new(f, e);
-            a.set_title(sjis_to_string(&json_to_bytes(&c["title"])));
+            let mut entries: Vec<(String, String)> = Vec::new();
             for kv in c["entries"].as_array().unwrap() {
                 let m = msg_to_string(&kv[1], fmt).ok_or(("harness".to_string(), "invalid utf16 in case".to_string()))?;
-                a.set_message(&sjis_to_string(&json_to_bytes(&kv[0])), &m);
+                entries.push((sjis_to_string(&json_to_bytes(&kv[0])), m));
             }
+            let a = build_text(i % 3, f, e, &sjis_to_string(&json_to_bytes(&c["title"])), &entries)?;
             let stored = text_value(&a, fmt);
             if stored["entries"] != c["entries"] {
-                return Err(("harness".to_string(), format!("stored entries differ from the case: {}", stored)));
+                // along routes 1 / 2 the archive went through serialize -> parse already: a difference is a round trip failure
+                return Err((if i % 3 == 0 { "harness" } else { "roundtrip" }.to_string(), format!("stored entries differ from the case: {}", stored)));
             }
             let bytes = a.serialize().map_err(|x| ("serialize".to_string(), x.to_string()))?;
             // a parse result must depend on the image alone: damaged copies first, then the real image, same thread
@@ -408,6 +452,24 @@ fn format_record(out_path: &str, n: usize, max_entries: usize) {
             a.set_title(String::new());
         }
         let v = text_value(&a, fmt);
+        // the same value reached along another history of calls (see build_text)
+        let a = if run % 3 == 0 {
+            a
+        } else {
+            let entries: Vec<(String, String)> = a.get_entries().iter().map(|(k, m)| (k.to_string(), m.to_string())).collect();
+            let title = a.get_title().to_string();
+            match catch(|| build_text(run % 3, f, e, &title, &entries)) {
+                Ok(Ok(b)) => b,
+                Ok(Err((what, why))) => {
+                    out.put(&json!({"op": "failed", "fmt": fmt, "endian": endian, "title": v["title"], "entries": v["entries"], "why": format!("{}: {}", what, why)}));
+                    continue;
+                }
+                Err(why) => {
+                    out.put(&json!({"op": "failed", "fmt": fmt, "endian": endian, "title": v["title"], "entries": v["entries"], "why": why}));
+                    continue;
+                }
+            }
+        };
         let r = catch(|| -> Result<Value, String> {
             let bytes = a.serialize().map_err(|x| format!("serialize: {}", x))?;
             let b = TextArchive::from_bytes(&bytes, f, e).map_err(|x| format!("from_bytes: {}", x))?;
@@ -428,7 +490,9 @@ fn main() {
     let args = &args[..];
     match args.first().map(|s| s.as_str()) {
         Some("replay") if args.len() == 3 => replay(&args[1], &args[2]),
-        Some("record") if args.len() == 4 => record(&args[1], args[2].parse().unwrap(), args[3].parse().unwrap()),
+        Some("record") if args.len() == 4 || args.len() == 5 => {
+            record(&args[1], args[2].parse().unwrap(), args[3].parse().unwrap(), args.get(4).map(|x| x.parse().unwrap()).unwrap_or(0))
+        }
         Some("format-replay") if args.len() == 3 => format_replay(&args[1], &args[2]),
         Some("format-record") if args.len() == 4 => format_record(&args[1], args[2].parse().unwrap(), args[3].parse().unwrap()),
         _ => usage("mvh_text replay <cases.ndjson> <out.ndjson> | record <out.ndjson> <runs> <len>"),
